@@ -10,8 +10,15 @@
   * `C02_pipeline_roundtrip` `c₁ | c₂ | … | cₙ` (n ≥ 2);
   * `C02_andor_roundtrip`    `c₁ op₂ c₂ …`, operators `;`, `&&`, `||` in any mix (one flat list node);
   * `C02_lines_roundtrip`, `C02_oplines_roundtrip`  several newline-separated lines, one part per line;
-  * `C02_full_roundtrip`     THE FULL SUB-LANGUAGE: lines of lists (`;`, `&&`, `||`) of pipelines (`|`)
-                             of simple commands of plain words — subsumes all of the above.
+  * `C02_full_roundtrip`     lines of lists (`;`, `&&`, `||`) of pipelines (`|`) of simple commands of
+                             plain words — subsumes all of the above;
+  * `C02_full_roundtrip3`    (= `C02_full_roundtrip2` after the in-place generalisation of `Elem`) adds the
+                             redirections `> w`, `< w`, `>> w` after the first item of a command;
+  * `C02_full_roundtrip2`    the same with GENERAL simple commands (`GCmd`, items `Item`): assignments
+                             `a=b` in command position (ASSIGNMENT_WORD → `assignment` nodes; also
+                             assignment-only commands), words of the form `a=b` after the command
+                             word stay `word` nodes; `C02_full_roundtrip_of2` derives
+                             `C02_full_roundtrip` from it through the embedding `SCmd.toG`.
 
   The sub-language: a word is `PlainWord` (non-empty, over letters, digits and `_ - . / , : + @ %`);
   the FIRST word of every simple command is not in the model's table `valid_reserved_first_command`
@@ -29,7 +36,8 @@
       2^30 and raise `outOfFuel` beyond); the implementation has no such bound.
   Outside the family (not claimed): empty commands (`a;;b` is `.exn (.parsing "unexpected token ';;'" …)`),
   a trailing `;` (`"a;"` gives a list node with a final operator), empty lines, `&`, `|&`, quoting,
-  expansions, assignments, redirections, compound commands.
+  expansions, a redirection as FIRST item of a command, file-descriptor prefixes (`2> w`), here-documents,
+  compound commands.
 
   Structure of the proof (`Props/C02/*.lean`):
   * `Tot`      a total-correctness calculus `Tot m l T P` over (parser object, tape);
@@ -42,7 +50,11 @@
   * `Seq`, `SeqGlue`, `Shift`   `;`-sequences, several lines (`posshifter`);
   * `Pipe`, `PipeGlue`   pipelines: `|` is right-nested on the stack (pending segments, unwinding);
   * `SeqOps`, `OpsGlue`  mixed `;`/`&&`/`||`: two stack shapes (flat, or `simple_list1 ;` under a group);
-  * `PipeE`, `SeqPE`, `PEGlue`, `ShiftE`   pipelines as the elements of the lists.
+  * `PipeE`, `SeqPE`, `PEGlue`, `ShiftE`   pipelines as the elements of the lists;
+  * `TokG`, `CmdG`, `PipeG`, `SeqPG`, `PGGlue`, `ShiftG`   general simple commands: the tokenizer on
+               words with `=` (`tot_nextToken_gen`: assignment bookkeeping `_assignment_acceptable`),
+               the item type `Item`, the run over the items (`g_items13`, `g_run13`), and the chain above
+               over `GCmd`.  To add an item kind: extend `Item` and the `cases it` lemmas of `CmdG`.
 -/
 import Bashlex.Props.C02.Glue
 import Bashlex.Props.C02.SeqGlue
@@ -50,6 +62,7 @@ import Bashlex.Props.C02.Shift
 import Bashlex.Props.C02.PipeGlue
 import Bashlex.Props.C02.OpsGlue
 import Bashlex.Props.C02.ShiftE
+import Bashlex.Props.C02.ShiftG
 
 namespace Bashlex.C02
 open Bashlex
@@ -1185,6 +1198,317 @@ theorem C02_full_roundtrip (ln1 : ELine) (lns : List ELine) (fin : Bool) (o : Op
   simp [epartsOf, e2]
 
 
+
+/-! ## the full sub-language with GENERAL simple commands (assignments, `a=b` words) -/
+
+theorem gprestText_noNL : ∀ (cs : List GCmd), (∀ c ∈ cs, c.OK) → ∀ x ∈ gprestText cs, x ≠ '\n'
+  | [], _ => fun x hx => by cases hx
+  | c :: cs, h => by
+    intro x hx
+    simp only [gprestText, List.mem_cons, List.mem_append] at hx
+    rcases hx with rfl | hx | hx
+    · decide
+    · exact GCmd.text_noNL (h c (List.mem_cons_self ..)) x hx
+    · exact gprestText_noNL cs (fun y hy => h y (List.mem_cons_of_mem _ hy)) x hx
+
+theorem GPE.text_noNL {e : GPE} (he : e.OK) : ∀ x ∈ e.text, x ≠ '\n' := by
+  intro x hx
+  simp only [GPE.text, List.mem_append] at hx
+  rcases hx with hx | hx
+  · exact GCmd.text_noNL he.1 x hx
+  · exact gprestText_noNL e.cs he.2 x hx
+
+theorem hrestText_noNL : ∀ (es : List (Op × GPE)), (∀ x ∈ es, x.2.OK) →
+    ∀ x ∈ hrestText es, x ≠ '\n'
+  | [], _ => fun x hx => by cases hx
+  | (o, e) :: es, h => by
+    intro x hx
+    have he := h (o, e) (List.mem_cons_self ..)
+    simp only [hrestText, List.mem_append] at hx
+    rcases hx with hx | hx | hx
+    · exact op_noNL o x hx
+    · exact GPE.text_noNL he x hx
+    · exact hrestText_noNL es (fun y hy => h y (List.mem_cons_of_mem _ hy)) x hx
+
+theorem gpcostB_le : ∀ (cs : List GCmd) (k : Nat), (∀ c ∈ cs, c.OK) →
+    gpcostB k cs ≤ 5 * (gprestText cs).length + k + 2
+  | [], k, _ => by simp [gpcostB, gprestText]
+  | c :: cs, k, h => by
+    have hc := GCmd.cost_le (h c (List.mem_cons_self ..))
+    have ih := gpcostB_le cs (k + 1) (fun x hx => h x (List.mem_cons_of_mem _ hx))
+    simp only [gpcostB, gprestText, List.length_cons, List.length_append]
+    omega
+
+theorem GPE.cost_le {e : GPE} (he : e.OK) : e.cost ≤ 5 * e.text.length + 1 := by
+  have h0 := gpcostB_le e.cs 0 he.2
+  have h1 := GCmd.cost_le he.1
+  simp only [GPE.cost, GPE.text, List.length_append]
+  omega
+
+theorem GPE.text_pos {e : GPE} (he : e.OK) : 0 < e.text.length := by
+  have := GCmd.text_pos he.1
+  simp only [GPE.text, List.length_append]; omega
+
+theorem hcost_le : ∀ (es : List (Op × GPE)) (k : Nat), k ≤ 1 → (∀ x ∈ es, x.2.OK) →
+    hcost k es ≤ 5 * (hrestText es).length + k + 4
+  | [], k, _, _ => by simp [hcost, hrestText]
+  | (o, e) :: es, k, hk, h => by
+    have he := h (o, e) (List.mem_cons_self ..)
+    have ih1 := hcost_le es 1 (Nat.le_refl _) (fun x hx => h x (List.mem_cons_of_mem _ hx))
+    have ihk := hcost_le es k hk (fun x hx => h x (List.mem_cons_of_mem _ hx))
+    have hc := GPE.cost_le he
+    cases o <;>
+      simp only [hcost, hrestText, List.length_cons, List.length_append, Op.txt,
+        List.length_nil] at * <;> omega
+
+def hlastTrail (t0 : Str) : List (Op × GPE) → Str
+  | [] => t0
+  | (_, e) :: es => hlastTrail e.trail es
+
+theorem hlastTrail_blank : ∀ (es : List (Op × GPE)) (t0 : Str), Blank t0 → (∀ x ∈ es, x.2.OK) →
+    Blank (hlastTrail t0 es)
+  | [], _, h, _ => h
+  | (o, e) :: es, _, _, hes =>
+    hlastTrail_blank es e.trail (GPE.trail_blank (hes (o, e) (List.mem_cons_self ..)))
+      (fun x hx => hes x (List.mem_cons_of_mem _ hx))
+
+theorem hsplit : ∀ (es : List (Op × GPE)) (pre t0 : Str) (e0 a : Nat), (∀ x ∈ es, x.2.OK) →
+    pre.length = e0 → e0 + t0.length = a →
+    ∃ Y, pre ++ t0 ++ hrestText es = Y ++ hlastTrail t0 es ∧ Y.length = hlastEnd e0 a es
+  | [], pre, t0, e0, a, _, he, _ =>
+    ⟨pre, by simp [hrestText, hlastTrail], by simpa [hlastEnd] using he⟩
+  | (o, p) :: es, pre, t0, e0, a, hes, he, ha => by
+    have hp := hes (o, p) (List.mem_cons_self ..)
+    obtain ⟨Yp, hYp, _, hYe⟩ := GPE.split p hp
+    obtain ⟨Y, hY, hYl⟩ := hsplit es (pre ++ t0 ++ o.txt ++ Yp) p.trail
+      (p.endPos (a + o.txt.length)) (a + o.txt.length + p.text.length)
+      (fun x hx => hes x (List.mem_cons_of_mem _ hx))
+      (by rw [hYe]; simp only [List.length_append]; omega)
+      (GPE.endPos_trail hp (a + o.txt.length))
+    refine ⟨Y, ?_, by simpa [hlastEnd] using hYl⟩
+    show pre ++ t0 ++ hrestText ((o, p) :: es) = Y ++ hlastTrail p.trail es
+    rw [← hY]
+    simp [hrestText, hYp]
+
+theorem hlastEnd_pos : ∀ (es : List (Op × GPE)) (e0 a : Nat), (∀ x ∈ es, x.2.OK) → 1 ≤ e0 →
+    1 ≤ hlastEnd e0 a es
+  | [], _, _, _, h => h
+  | (o, p) :: es, _, a, hes, _ => by
+    obtain ⟨Yp, _, hY1, hYe⟩ := GPE.split p (hes (o, p) (List.mem_cons_self ..))
+    exact hlastEnd_pos es _ _ (fun x hx => hes x (List.mem_cons_of_mem _ hx))
+      (by rw [hYe]; omega)
+
+/-- the text of a line -/
+def hlineText (p1 : GPE) (es : List (Op × GPE)) : Str := p1.text ++ hrestText es
+
+/-- a line: a list `p₁ op₂ p₂ …` (n ≥ 1, opᵢ ∈ {`;`, `&&`, `||`}) of pipelines `c | c | …` (m ≥ 1) -/
+abbrev HLine := GPE × List (Op × GPE)
+def HLine.text (ln : HLine) : Str := hlineText ln.1 ln.2
+def HLine.OK (ln : HLine) : Prop := ln.1.OK ∧ ∀ x ∈ ln.2, x.2.OK
+instance (ln : HLine) : Decidable ln.OK := by unfold HLine.OK; exact inferInstance
+/-- its AST when its text starts at offset `off`: the command node (n = 1) or the list node -/
+def HLine.node (off : Nat) (ln : HLine) : Node := hlineNode off ln.1 ln.2
+
+theorem HLine.text_noNL {ln : HLine} (h : ln.OK) : ∀ x ∈ ln.text, x ≠ '\n' := by
+  intro x hx
+  simp only [HLine.text, hlineText, List.mem_append] at hx
+  rcases hx with hx | hx
+  · exact GPE.text_noNL h.1 x hx
+  · exact hrestText_noNL ln.2 h.2 x hx
+
+theorem HLine.text_pos {ln : HLine} (h : ln.OK) : 0 < ln.text.length := by
+  have := GPE.text_pos h.1
+  simp only [HLine.text, hlineText, List.length_append]; omega
+
+theorem HLine.last {ln : HLine} (h : ln.OK) (P : Str) :
+    ∃ c, (P ++ ln.text).getLast? = some c ∧ c ≠ '\n' := by
+  have hne : ln.text ≠ [] := List.length_pos_iff.mp (HLine.text_pos h)
+  rw [List.getLast?_append]
+  cases hl : ln.text.getLast? with
+  | none => simp [List.getLast?_eq_none_iff] at hl; exact absurd hl hne
+  | some c => exact ⟨c, by simp, HLine.text_noNL h c (List.mem_of_getLast? hl)⟩
+
+theorem HLine.cost {ln : HLine} (h : ln.OK) :
+    hcost 0 ln.2 + ln.1.cost + 3 ≤ 5 * ln.text.length + 12 := by
+  have hcost := hcost_le ln.2 0 (Nat.zero_le _) h.2
+  have hc := GPE.cost_le h.1
+  simp only [HLine.text, hlineText, List.length_append]
+  omega
+
+/-- one parser run on `line ++ R`, `R` empty or starting with a newline -/
+theorem runParser_hlineG {ln : HLine} {R S : Str} (o : Opts) (t : List Char) (h : ln.OK)
+    (hS : S = ln.text ++ R) (hR : R = [] ∨ ∃ nlr, R = '\n' :: nlr)
+    (hsz : 5 * S.length + 20 ≤ 1073741824) :
+    ∃ t', runParser S o t = (.ok (some (ln.node 0)), t') := by
+  obtain ⟨c, hc1, hc2⟩ := HLine.last h []
+  obtain ⟨L, adn, nlr', hof, hL, hLl⟩ := line_shape (A := ln.text) hS hR (by simpa using hc1) hc2
+  have hlen : ln.text.length ≤ S.length := by rw [hS]; simp
+  refine runParser_of_tot hof ?_
+  refine tot_parserRun_H (nlr := nlr') (by omega) h.1 h.2 (initial_POK _) rfl rfl ?_
+    (by have := HLine.cost h; omega)
+  rw [hL]; simp [HLine.text, hlineText]
+
+/-- one parser run on `pre ++ "\n" ++ line ++ R` -/
+theorem runParser_hlineG_nl {ln : HLine} {R S pre : Str} (o : Opts) (t : List Char) (h : ln.OK)
+    (hpre : Blank pre) (hS : S = pre ++ '\n' :: (ln.text ++ R))
+    (hR : R = [] ∨ ∃ nlr, R = '\n' :: nlr) (hsz : 5 * S.length + 20 ≤ 1073741824) :
+    ∃ t', runParser S o t = (.ok (some (ln.node (pre.length + 1))), t') := by
+  obtain ⟨c, hc1, hc2⟩ := HLine.last h (pre ++ ['\n'])
+  have hS' : S = (pre ++ ['\n'] ++ ln.text) ++ R := by rw [hS]; simp
+  obtain ⟨L, adn, nlr', hof, hL, hLl⟩ := line_shape hS' hR hc1 hc2
+  have hlen : ln.text.length ≤ S.length := by rw [hS]; simp; omega
+  refine runParser_of_tot hof ?_
+  have := tot_parserRun_H_nl (L := L) (adn := adn) (i := 0) (d := 63) (nlr := nlr') (pre := pre)
+    (l := { limit := o.limit }) (by omega) h.1 h.2 (initial_POK _) rfl hpre
+    (by rw [hL]; simp [HLine.text, hlineText]) (by have := HLine.cost h; omega)
+  simpa [HLine.node] using this
+
+/-- the text after the first line: `"\n" line₂ "\n" line₃ …`, with or without a final newline -/
+def hmoreText (fin : Bool) : List HLine → Str
+  | [] => if fin then ['\n'] else []
+  | ln :: lns => '\n' :: (ln.text ++ hmoreText fin lns)
+
+/-- the expected parts, the first line starting at offset `off` -/
+def hpartsOf (off : Nat) : List HLine → List Node
+  | [] => []
+  | ln :: lns => ln.node off :: hpartsOf (off + ln.text.length + 1) lns
+
+theorem hmoreText_shape (fin : Bool) (lns : List HLine) :
+    hmoreText fin lns = [] ∨ ∃ nlr, hmoreText fin lns = '\n' :: nlr := by
+  cases lns with
+  | nil => cases fin <;> simp [hmoreText]
+  | cons ln lns => exact Or.inr ⟨_, rfl⟩
+
+theorem hmoreText_length (fin : Bool) : ∀ (lns : List HLine), lns.length ≤ (hmoreText fin lns).length
+  | [] => by simp
+  | ln :: lns => by
+    have := hmoreText_length fin lns
+    simp only [hmoreText, List.length_cons, List.length_append]; omega
+
+/-- a line splits into everything up to the end of its last word, and its last trailing blanks -/
+theorem HLine.split (ln : HLine) (h : ln.OK) :
+    ∃ X LT, ln.text = X ++ LT ∧ Blank LT ∧ 1 ≤ X.length ∧
+      ∀ off, nextIndex (ln.node off) = off + X.length := by
+  obtain ⟨Y1, hY1, hY1pos, hY1e⟩ := GPE.split ln.1 h.1
+  obtain ⟨X, hX, hXl⟩ := hsplit ln.2 Y1 ln.1.trail (ln.1.endPos 0) (0 + ln.1.text.length) h.2
+    (by rw [hY1e]; simp) (GPE.endPos_trail h.1 0)
+  refine ⟨X, hlastTrail ln.1.trail ln.2, ?_, hlastTrail_blank ln.2 _ (GPE.trail_blank h.1) h.2, ?_, ?_⟩
+  · rw [← hX]; simp [HLine.text, hlineText, hY1]
+  · rw [hXl]; exact hlastEnd_pos ln.2 _ _ h.2 (by rw [hY1e]; omega)
+  · intro off
+    rw [HLine.node, nextIndex_hlineNode, hXl]
+    have := hlastEnd_shift off ln.2 (ln.1.endPos 0) (0 + ln.1.text.length)
+    have e1 : ln.1.endPos off = ln.1.endPos 0 + off := by rw [← GPE.endPos_shift]; simp
+    have e2 : off + ln.1.text.length = 0 + ln.1.text.length + off := by omega
+    rw [e1, e2, this]
+    omega
+
+/-- **the loop of `parse`** over the remaining lines: `index` stands at the end of the last word of
+    the previous line -/
+theorem loop_hlines (s : Str) (o : Opts) (fin : Bool) (hsz : 5 * s.length + 20 ≤ 1073741824) :
+    ∀ (lns : List HLine) (index fuel : Nat) (parts : List Node) (t : List Char) (trail : Str),
+      (∀ ln ∈ lns, ln.OK) → Blank trail → s.drop index = trail ++ hmoreText fin lns →
+      lns.length + 2 ≤ fuel →
+      ∃ t', parseLoop s o fuel index parts t =
+        (.ok (parts ++ hpartsOf (index + trail.length + 1) lns), t') := by
+  intro lns
+  induction lns with
+  | nil =>
+    intro index fuel parts t trail _ htrail hdrop hf
+    obtain ⟨f, rfl⟩ : ∃ f, fuel = f + 1 := ⟨fuel - 1, by omega⟩
+    have hdl : (s.drop index).length ≤ s.length := by rw [List.length_drop]; omega
+    by_cases hlt : index < s.length
+    · have hne : s.drop index ≠ [] := by
+        intro h0
+        have := List.drop_eq_nil_iff.mp h0
+        omega
+      have hb : ∃ t', runParser (s.drop index) o t = (.ok none, t') := by
+        refine runParser_blankG (tail := trail) o t htrail ?_ (by omega)
+        rw [hdrop] at hne ⊢
+        cases fin with
+        | true => exact Or.inr (by simp [hmoreText])
+        | false =>
+          refine Or.inl ⟨by simp [hmoreText], ?_⟩
+          simpa [hmoreText] using hne
+      obtain ⟨t', hb⟩ := hb
+      refine ⟨t', ?_⟩
+      rw [parseLoop, if_pos hlt, hb]
+      simp [hpartsOf]
+    · refine ⟨t, ?_⟩
+      rw [parseLoop_done _ _ _ _ _ _ (by omega)]
+      simp [hpartsOf]
+  | cons ln lns ih =>
+    intro index fuel parts t trail hok htrail hdrop hf
+    obtain ⟨f, rfl⟩ : ∃ f, fuel = f + 1 := ⟨fuel - 1, by omega⟩
+    have hln := hok ln (List.mem_cons_self ..)
+    have hok' : ∀ x ∈ lns, x.OK := fun x hx => hok x (List.mem_cons_of_mem _ hx)
+    have hdl : (s.drop index).length = s.length - index := List.length_drop
+    have hlt : index < s.length := by
+      have : 0 < (s.drop index).length := by rw [hdrop]; simp [hmoreText]; omega
+      omega
+    obtain ⟨t', hr⟩ := runParser_hlineG_nl (S := s.drop index) (R := hmoreText fin lns) o t hln htrail
+      (by rw [hdrop]; simp [hmoreText]) (hmoreText_shape fin lns) (by omega)
+    obtain ⟨X, LT, hsplit, hLT, hX1, hni⟩ := HLine.split ln hln
+    have hshift : (ln.node (trail.length + 1)).shift index = ln.node (index + trail.length + 1) := by
+      rw [HLine.node, hlineNode_shift, HLine.node]
+      congr 1; omega
+    have hnext : max (nextIndex (ln.node (index + trail.length + 1))) (index + 1) =
+        index + trail.length + 1 + X.length := by
+      rw [hni]; omega
+    have hdrop' : s.drop (index + trail.length + 1 + X.length) = LT ++ hmoreText fin lns := by
+      have e : index + trail.length + 1 + X.length = index + (trail ++ '\n' :: X).length := by
+        simp; omega
+      rw [e, ← List.drop_drop, hdrop]
+      have : trail ++ hmoreText fin (ln :: lns) = (trail ++ '\n' :: X) ++ (LT ++ hmoreText fin lns) := by
+        simp [hmoreText, hsplit]
+      rw [this]
+      exact List.drop_left' rfl
+    obtain ⟨t'', hih⟩ := ih (index + trail.length + 1 + X.length) f
+      (parts ++ [ln.node (index + trail.length + 1)]) t' LT hok' hLT hdrop' (by simp at hf; omega)
+    refine ⟨t'', ?_⟩
+    rw [parseLoop, if_pos hlt, hr]
+    simp only [hshift, hnext, hih]
+    have e2 : index + trail.length + 1 + X.length + LT.length + 1 =
+        index + trail.length + 1 + ln.text.length + 1 := by rw [hsplit]; simp; omega
+    simp [hpartsOf, e2]
+
+/-- the text of several lines -/
+def hlinesText (fin : Bool) (ln1 : HLine) (lns : List HLine) : Str := ln1.text ++ hmoreText fin lns
+
+/-- **C02, the full sub-language**: newline-separated lines; each line a list `p₁ op₂ p₂ …` (n ≥ 1,
+    operators `;`, `&&`, `||` in any mix); each `pᵢ` a pipeline `c | c | …` (m ≥ 1) of GENERAL simple commands:
+    assignments `a=b` in command position (also assignment-only commands), then words (a first
+    word is no reserved word; words of the form `a=b` after the command word stay words); blanks/tabs between the words, around every
+    operator and at the ends of the lines; with or without a final newline.  For ALL options `parse`
+    returns one part per line: the command node, the pipeline node, or the flat list node over
+    commands / pipeline nodes / operators — every kind, nesting, operator, word value and span exact. -/
+theorem C02_full_roundtrip2 (ln1 : HLine) (lns : List HLine) (fin : Bool) (o : Opts)
+    (h1 : ln1.OK) (hl : ∀ ln ∈ lns, ln.OK)
+    (hsz : 5 * (hlinesText fin ln1 lns).length + 20 ≤ 1073741824) :
+    (parse (hlinesText fin ln1 lns) o).1 = .parts (hpartsOf 0 (ln1 :: lns)) := by
+  obtain ⟨t1, hr⟩ := runParser_hlineG (S := hlinesText fin ln1 lns) (R := hmoreText fin lns) o [] h1 rfl
+    (hmoreText_shape fin lns) hsz
+  obtain ⟨X, LT, hsplit, hLT, hX1, hni⟩ := HLine.split ln1 h1
+  have hdrop : (hlinesText fin ln1 lns).drop X.length = LT ++ hmoreText fin lns := by
+    have : hlinesText fin ln1 lns = X ++ (LT ++ hmoreText fin lns) := by
+      simp [hlinesText, hsplit]
+    rw [this]
+    exact List.drop_left' rfl
+  have hlen : lns.length + 2 ≤ (hlinesText fin ln1 lns).length + 1 := by
+    have := hmoreText_length fin lns
+    have := HLine.text_pos h1
+    simp only [hlinesText, List.length_append]; omega
+  obtain ⟨t2, hloop⟩ := loop_hlines (hlinesText fin ln1 lns) o fin hsz lns X.length
+    ((hlinesText fin ln1 lns).length + 1) [ln1.node 0] t1 LT hl hLT hdrop hlen
+  unfold parse
+  rw [hr]
+  simp only [hni, Nat.zero_add]
+  have hmax : max X.length 1 = X.length := by omega
+  rw [hmax, hloop]
+  have e2 : X.length + LT.length + 1 = 0 + ln1.text.length + 1 := by rw [hsplit]; simp
+  simp [hpartsOf, e2]
+
+
 /-! ## non-vacuity: the hypotheses are decidable and satisfiable (kernel-checked instance) -/
 
 /-- ` ls -l|wc &&wc ` followed by a second line `wc` and a final newline -/
@@ -1196,6 +1520,180 @@ example :
     (parse (elinesText true ln1 [ln2]) {}).1 = .parts (epartsOf 0 [ln1, ln2]) := by
   intro ca cb ln1 ln2
   exact C02_full_roundtrip ln1 [ln2] true {} (by decide) (by decide) (by decide)
+
+/-! ## `C02_full_roundtrip2` subsumes `C02_full_roundtrip`: the embedding of the old commands -/
+
+def SCmd.toG (c : SCmd) : GCmd :=
+  ⟨c.lead, .word c.w1, c.items.map (fun p => (p.1, Elem.simple (Item.word p.2))), c.trail⟩
+
+theorem spellJ_map : ∀ (items : List (Str × Str)),
+    spellJ (items.map (fun p => (p.1, Elem.simple (Item.word p.2)))) = spellI items
+  | [] => rfl
+  | (g, w) :: r => by simp [spellJ, spellI, Elem.text, Item.text, spellJ_map r]
+
+theorem nodesJ_map : ∀ (items : List (Str × Str)) (off : Nat),
+    nodesJ off (items.map (fun p => (p.1, Elem.simple (Item.word p.2)))) = nodesI off items
+  | [], _ => rfl
+  | (g, w) :: r, off => by simp [nodesJ, nodesI, Elem.text, Elem.node, Item.text, Item.node, nodesJ_map r]
+
+theorem endJ_map : ∀ (items : List (Str × Str)) (off : Nat),
+    endJ off (items.map (fun p => (p.1, Elem.simple (Item.word p.2)))) = endI off items
+  | [], _ => rfl
+  | (g, w) :: r, off => by simp [endJ, endI, Elem.text, Item.text, endJ_map r]
+
+theorem plain_item {w : Str} (h : PlainWord w) (pos : Bool) : (Item.word w).OK pos :=
+  ⟨h.gen, fun _ => looksAssign_plain h⟩
+
+theorem ItemsJ_map : ∀ (items : List (Str × Str)), ItemsOK items →
+    ItemsJ false (items.map (fun p => (p.1, Elem.simple (Item.word p.2))))
+  | [], _ => trivial
+  | (g, w) :: r, h => by
+    have h1 := h (g, w) (List.mem_cons_self ..)
+    exact ⟨h1.1, plain_item h1.2 _, ItemsJ_map r (fun x hx => h x (List.mem_cons_of_mem _ hx))⟩
+
+theorem SCmd.toG_text (c : SCmd) : c.toG.text = c.text := by
+  simp [SCmd.toG, GCmd.text, SCmd.text, lineText, spellJ_map, Item.text]
+
+theorem SCmd.toG_node (c : SCmd) (off : Nat) : c.toG.node off = c.node off := by
+  simp [SCmd.toG, GCmd.node, GCmd.nodes, GCmd.endPos, SCmd.node, cmdNode, nodesJ_map, endJ_map,
+    Item.text, Item.node]
+
+theorem SCmd.toG_endPos (c : SCmd) (off : Nat) : c.toG.endPos off = c.endPos off := by
+  simp [SCmd.toG, GCmd.endPos, SCmd.endPos, endJ_map, Item.text]
+
+theorem SCmd.toG_OK {c : SCmd} (h : c.OK) : c.toG.OK :=
+  ⟨h.lead, plain_item h.w1 _, h.nr, ItemsJ_map c.items h.items, h.trail⟩
+
+def PE.toG (e : PE) : GPE := ⟨e.c1.toG, e.cs.map SCmd.toG⟩
+
+theorem gprestText_map : ∀ (cs : List SCmd), gprestText (cs.map SCmd.toG) = prestText cs
+  | [] => rfl
+  | c :: cs => by simp [gprestText, prestText, SCmd.toG_text, gprestText_map cs]
+
+theorem gprestNodes_map : ∀ (cs : List SCmd) (a : Nat),
+    gprestNodes a (cs.map SCmd.toG) = prestNodes a cs
+  | [], _ => rfl
+  | c :: cs, a => by simp [gprestNodes, prestNodes, SCmd.toG_text, SCmd.toG_node, gprestNodes_map cs]
+
+theorem glastEnd_map : ∀ (cs : List SCmd) (e a : Nat), glastEnd e a (cs.map SCmd.toG) = lastEnd e a cs
+  | [], _, _ => rfl
+  | c :: cs, e, a => by simp [glastEnd, lastEnd, SCmd.toG_text, SCmd.toG_endPos, glastEnd_map cs]
+
+theorem PE.toG_text (e : PE) : e.toG.text = e.text := by
+  simp [PE.toG, GPE.text, PE.text, SCmd.toG_text, gprestText_map]
+
+theorem PE.toG_endPos (e : PE) (off : Nat) : e.toG.endPos off = e.endPos off := by
+  simp [PE.toG, GPE.endPos, PE.endPos, SCmd.toG_text, SCmd.toG_endPos, glastEnd_map]
+
+theorem PE.toG_node (e : PE) (off : Nat) : e.toG.node off = e.node off := by
+  show mkPipe (off + e.c1.toG.lead.length) (e.toG.endPos off)
+    (e.c1.toG.node off :: gprestNodes (off + e.c1.toG.text.length) (e.cs.map SCmd.toG)) = _
+  rw [PE.toG_endPos, SCmd.toG_node, SCmd.toG_text, gprestNodes_map]
+  rfl
+
+theorem PE.toG_OK {e : PE} (h : e.OK) : e.toG.OK := by
+  refine ⟨SCmd.toG_OK h.1, ?_⟩
+  intro c hc
+  simp only [PE.toG, List.mem_map] at hc
+  obtain ⟨c', hc', rfl⟩ := hc
+  exact SCmd.toG_OK (h.2 c' hc')
+
+def esToG (es : List (Op × PE)) : List (Op × GPE) := es.map (fun x => (x.1, x.2.toG))
+
+theorem hrestText_map : ∀ (es : List (Op × PE)), hrestText (esToG es) = erestText es
+  | [] => rfl
+  | (o, e) :: es => by
+    have := hrestText_map es
+    simp only [esToG] at this
+    simp [esToG, hrestText, erestText, PE.toG_text, this]
+
+theorem hrestNodes_map : ∀ (es : List (Op × PE)) (a : Nat), hrestNodes a (esToG es) = erestNodes a es
+  | [], _ => rfl
+  | (o, e) :: es, a => by
+    have := hrestNodes_map es
+    simp only [esToG] at this
+    simp [esToG, hrestNodes, erestNodes, PE.toG_text, PE.toG_node, this]
+
+theorem hlastEnd_map : ∀ (es : List (Op × PE)) (e0 a : Nat),
+    hlastEnd e0 a (esToG es) = elastEnd e0 a es
+  | [], _, _ => rfl
+  | (o, e) :: es, e0, a => by
+    have := hlastEnd_map es
+    simp only [esToG] at this
+    simp [esToG, hlastEnd, elastEnd, PE.toG_text, PE.toG_endPos, this]
+
+def ELine.toH (ln : ELine) : HLine := (ln.1.toG, esToG ln.2)
+
+theorem ELine.toH_text (ln : ELine) : ln.toH.text = ln.text := by
+  simp [ELine.toH, HLine.text, ELine.text, hlineText, elineText, PE.toG_text, hrestText_map]
+
+theorem ELine.toH_node (ln : ELine) (off : Nat) : ln.toH.node off = ln.node off := by
+  simp only [ELine.toH, HLine.node, ELine.node, hlineNode, elineNode, PE.toG_text, PE.toG_node,
+    PE.toG_endPos, hrestNodes_map, hlastEnd_map]
+  simp [PE.toG, SCmd.toG]
+
+theorem ELine.toH_OK {ln : ELine} (h : ln.OK) : ln.toH.OK := by
+  refine ⟨PE.toG_OK h.1, ?_⟩
+  intro x hx
+  simp only [ELine.toH, esToG, List.mem_map] at hx
+  obtain ⟨y, hy, rfl⟩ := hx
+  exact PE.toG_OK (h.2 y hy)
+
+theorem hmoreText_map (fin : Bool) : ∀ (lns : List ELine),
+    hmoreText fin (lns.map ELine.toH) = emoreText fin lns
+  | [] => rfl
+  | ln :: lns => by simp [hmoreText, emoreText, ELine.toH_text, hmoreText_map fin lns]
+
+theorem hpartsOf_map : ∀ (lns : List ELine) (off : Nat),
+    hpartsOf off (lns.map ELine.toH) = epartsOf off lns
+  | [], _ => rfl
+  | ln :: lns, off => by simp [hpartsOf, epartsOf, ELine.toH_text, ELine.toH_node, hpartsOf_map lns]
+
+/-- `C02_full_roundtrip`, derived from `C02_full_roundtrip2` through the embedding -/
+theorem C02_full_roundtrip_of2 (ln1 : ELine) (lns : List ELine) (fin : Bool) (o : Opts)
+    (h1 : ln1.OK) (hl : ∀ ln ∈ lns, ln.OK)
+    (hsz : 5 * (elinesText fin ln1 lns).length + 20 ≤ 1073741824) :
+    (parse (elinesText fin ln1 lns) o).1 = .parts (epartsOf 0 (ln1 :: lns)) := by
+  have ht : hlinesText fin ln1.toH (lns.map ELine.toH) = elinesText fin ln1 lns := by
+    simp [hlinesText, elinesText, ELine.toH_text, hmoreText_map]
+  have := C02_full_roundtrip2 ln1.toH (lns.map ELine.toH) fin o (ELine.toH_OK h1)
+    (by
+      intro x hx
+      simp only [List.mem_map] at hx
+      obtain ⟨y, hy, rfl⟩ := hx
+      exact ELine.toH_OK (hl y hy))
+    (by rw [ht]; exact hsz)
+  rw [ht] at this
+  rw [this]
+  have := hpartsOf_map (ln1 :: lns) 0
+  simpa using congrArg Outcome.parts this
+
+/-- non-vacuity of `C02_full_roundtrip2` (kernel-checked): ` a=b c=d x  e=f >out < in |ls -l >>log&&v=1`,
+    then `v=1;ls -l >>log` on a second line -/
+example :
+    let g1 : GCmd := ⟨[' '], .assign ['a', '=', 'b'], [([' '], .simple (.assign ['c', '=', 'd'])),
+      ([' '], .simple (.word ['x'])), ([' ', ' '], .simple (.word ['e', '=', 'f'])),
+      ([' '], .redir .gt [] ['o', 'u', 't']), ([' '], .redir .lt [' '] ['i', 'n'])], [' ']⟩
+    let g2 : GCmd := ⟨[], .assign ['v', '=', '1'], [], []⟩
+    let g3 : GCmd := ⟨[], .word ['l', 's'], [([' '], .simple (.word ['-', 'l'])),
+      ([' '], .redir .gg [] ['l', 'o', 'g'])], []⟩
+    let L1 : HLine := (⟨g1, [g3]⟩, [(.andand, ⟨g2, []⟩)])
+    let L2 : HLine := (⟨g2, []⟩, [(.semi, ⟨g3, []⟩)])
+    (parse (hlinesText true L1 [L2]) {}).1 = .parts (hpartsOf 0 [L1, L2]) := by
+  intro g1 g2 g3 L1 L2
+  exact C02_full_roundtrip2 L1 [L2] true {} (by decide) (by decide) (by decide)
+
+/-- **C02, step (4)**: the statement of `C02_full_roundtrip2` over the item/element types as they
+    stand now — `Elem` includes the redirections `> w`, `< w`, `>> w` (no file-descriptor prefix; blanks
+    allowed between operator and word) anywhere after the first item of a simple command; each gives
+    a `redirect` node `(start of op, end of w) none op (some (word …)) none none none`.
+    (`GCmd`/`Elem` were generalised in place, so this is the same theorem as `C02_full_roundtrip2`;
+    the step-(3) statement is its restriction to commands without `Elem.redir`.) -/
+theorem C02_full_roundtrip3 (ln1 : HLine) (lns : List HLine) (fin : Bool) (o : Opts)
+    (h1 : ln1.OK) (hl : ∀ ln ∈ lns, ln.OK)
+    (hsz : 5 * (hlinesText fin ln1 lns).length + 20 ≤ 1073741824) :
+    (parse (hlinesText fin ln1 lns) o).1 = .parts (hpartsOf 0 (ln1 :: lns)) :=
+  C02_full_roundtrip2 ln1 lns fin o h1 hl hsz
 
 end Bashlex.C02
 
@@ -1221,3 +1719,9 @@ end Bashlex.C02
 #print axioms Bashlex.C02.pe_run
 #print axioms Bashlex.C02.run_seqE
 #print axioms Bashlex.C02.C02_full_roundtrip
+#print axioms Bashlex.C02.tot_nextToken_gen
+#print axioms Bashlex.C02.gpe_run
+#print axioms Bashlex.C02.C02_full_roundtrip2
+#print axioms Bashlex.C02.C02_full_roundtrip_of2
+#print axioms Bashlex.C02.elem_step
+#print axioms Bashlex.C02.C02_full_roundtrip3
